@@ -1225,7 +1225,7 @@ class TypeMeetVisitor(TypeVisitor[ProperType]):
     def visit_type_type(self, t: TypeType) -> ProperType:
         if isinstance(self.s, TypeType):
             typ = self.meet(t.item, self.s.item)
-            if not isinstance(typ, NoneType):
+            if state.strict_optional or not isinstance(typ, NoneType):
                 typ = TypeType.make_normalized(
                     typ, line=t.line, is_type_form=self.s.is_type_form and t.is_type_form
                 )
